@@ -26,11 +26,13 @@ SeqRange(s) == {s[i] : i \in DOMAIN s}
 
 Dims ==
   [f \in ByteFields |-> ByteStates] @@
-  [ rtmrs    |-> <<"unset", "allEqual", "allEmpty", "oneEmpty", "diff1", "diff2", "diff3", "diff4", "short2", "long3", "len1", "len3", "len5">>,
+  [ rtmrs    |-> <<"unset", "allEqual", "allEmpty", "oneEmpty", "diff1", "diff2", "diff3", "diff4", "emptyThenDiff", "diffThenEmpty", "emptyThenShort",
+                   "short2", "long3", "len1", "len3", "len5">>,
     anyMrTd  |-> <<"unset", "oneEqual", "diffThenEqual", "emptyEntry", "oneDiff", "twoDiff", "wrongSizeOnly", "wrongSizeThenEqual", "diffThenWrongSize">>,
     minQe    |-> <<"zero", "equal", "below", "betweenEndian", "above", "max", "big65536", "bigMax32">>,
     minPce   |-> <<"zero", "equal", "below", "betweenEndian", "above", "max", "big65536", "bigMax32">>,
-    minTee   |-> <<"unset", "allEqual", "allBelow", "empty", "aboveFirst", "aboveSecond", "aboveLast", "len1", "len15", "len17", "len17Above">>,
+    minTee   |-> <<"unset", "allEqual", "allBelow", "empty", "aboveFirst", "aboveSecond", "aboveLast", "belowThenAbove", "aboveThenBelow",
+                   "len1", "len15", "len17", "len17Above">>,
     xfamBits |-> <<"base">> \o BitStates("set") \o <<"clear0", "clear1">>,
     tdAttrBits |-> <<"zero">> \o BitStates("set") ]
 
@@ -55,7 +57,7 @@ Reading(d, v) ==
          (CASE v \in {"unset", "empty", "equal"} -> "pass" [] v \in {"diffFirst", "diffLast"} -> "miss" [] OTHER -> "malformed")
     [] d = "rtmrs" ->
          (CASE v \in {"unset", "allEqual", "allEmpty", "oneEmpty"} -> "pass"
-            [] v \in {"diff1", "diff2", "diff3", "diff4"} -> "miss"
+            [] v \in {"diff1", "diff2", "diff3", "diff4", "emptyThenDiff", "diffThenEmpty"} -> "miss"   \* an empty entry is "not given"; the given ones still count
             [] OTHER -> "malformed")
     [] d = "anyMrTd" ->
          (CASE v \in {"unset", "oneEqual", "diffThenEqual"} -> "pass"
@@ -69,7 +71,7 @@ Reading(d, v) ==
             [] OTHER -> "malformed")                          \* does not fit 16 bits
     [] d = "minTee" ->
          (CASE v \in {"unset", "allEqual", "allBelow", "empty"} -> "pass"
-            [] v \in {"aboveFirst", "aboveSecond", "aboveLast"} -> "miss"
+            [] v \in {"aboveFirst", "aboveSecond", "aboveLast", "belowThenAbove", "aboveThenBelow"} -> "miss"   \* component-wise, not lexicographic
             [] OTHER -> "malformed")
     [] d = "xfamBits" ->
          (CASE v = "base" -> "pass" [] v \in {"clear0", "clear1"} -> "miss"
